@@ -25,6 +25,7 @@ EXPLANATION = (
     "tail-sliced first (descending occupation); used in ascending order the leading columns are the least "
     "occupied ones. "
     ' ORTH-1: every orbital matrix get_init_walkers returns is orthonormal by construction (eigenvectors of a Hermitian matrix, the Q factor of a QR, a product of such); a sum / column-wise rescaling of orthonormal vectors with no QR after it is reported. '
+    ' PAIR-3 judges on witnesses only: Q from another input, R of another factorisation, magnitude-only or trace-like norm factors, no factorisation at all, Q rephased by diag(R) with the unmodified R handed on; an orthonormalisation it cannot read (CholeskyQR, polar, Loewdin) is noted, not reported. '
 )
 NOT_DECIDED = (
     "orthonormality of Q, invariance of energy / force bias under QR, the overlap lower bound in the "
